@@ -10,9 +10,14 @@ import (
 	"fmt"
 	"math/rand"
 	"os"
+	"runtime"
 	"sort"
 	"strconv"
+	"strings"
+	"sync"
+	"sync/atomic"
 	"testing"
+	"time"
 )
 
 // Run is the context handed to a stream.
@@ -29,7 +34,13 @@ type Run struct {
 	Cases    int            // distinct generated cases (traces/histories)
 	Nontriv  int            // cases that exercised a non-default branch (stream specific rule)
 	Known    map[string]int // known-finding signatures observed
+	progress atomic.Int64   // bumped by Emit/Count/Tick: the stall watchdog watches it
+	lastMu   sync.Mutex
+	last     []string // the most recent trace lines (for the report of a hang)
 }
+
+// Tick tells the stall watchdog that the stream is alive (for long phases that emit nothing).
+func (r *Run) Tick() { r.progress.Add(1) }
 
 // Failure is a property violation observed on the real implementation.
 type Failure struct {
@@ -40,12 +51,23 @@ type Failure struct {
 }
 
 func (r *Run) Emit(format string, args ...any) {
-	fmt.Fprintf(r.w, format, args...)
+	line := fmt.Sprintf(format, args...)
+	r.w.WriteString(line)
 	r.w.WriteByte('\n')
 	r.Lines++
+	r.progress.Add(1)
+	r.lastMu.Lock()
+	if len(line) > 200 {
+		line = line[:200]
+	}
+	r.last = append(r.last, line)
+	if len(r.last) > 40 {
+		r.last = r.last[len(r.last)-40:]
+	}
+	r.lastMu.Unlock()
 }
-func (r *Run) Count(k string)         { r.Counters[k]++ }
-func (r *Run) CountN(k string, n int) { r.Counters[k] += n }
+func (r *Run) Count(k string)         { r.Counters[k]++; r.progress.Add(1) }
+func (r *Run) CountN(k string, n int) { r.Counters[k] += n; r.progress.Add(1) }
 func (r *Run) Fail(prop, what, input string) {
 	if len(input) > 4000 {
 		input = input[:4000] + "…(truncated; the trace file has the full history)"
@@ -105,6 +127,48 @@ func TestStream(t *testing.T) {
 	defer fh.Close()
 	r := &Run{T: t, Rng: rand.New(rand.NewSource(seed)), Seed: seed, Scale: int(envInt("VERIF_SCALE", 1)),
 		w: bufio.NewWriterSize(fh, 1<<20), Counters: map[string]int{}, Known: map[string]int{}, Failures: []Failure{}, Samples: []string{}}
+	// Stall watchdog: a stream that makes no progress (no trace line, no counter) for
+	// VERIF_STALL_S seconds of real time is hung - the implementation deadlocked or spins (a mutex
+	// cycle is not a "durably blocked" state for synctest, so nothing else would end the run).
+	// The report is written with a HANG failure and the goroutine dump, and the process exits.
+	stall := time.Duration(envInt("VERIF_STALL_S", 90)) * time.Second
+	stopWatch := make(chan struct{})
+	defer close(stopWatch)
+	go func() {
+		lastV, lastT := r.progress.Load(), time.Now()
+		for {
+			select {
+			case <-stopWatch:
+				return
+			case <-time.After(time.Second):
+			}
+			if v := r.progress.Load(); v != lastV {
+				lastV, lastT = v, time.Now()
+				continue
+			}
+			if time.Since(lastT) < stall {
+				continue
+			}
+			buf := make([]byte, 1<<20)
+			buf = buf[:runtime.Stack(buf, true)]
+			dump := string(buf)
+			if len(dump) > 6000 {
+				dump = dump[:6000] + "…"
+			}
+			r.lastMu.Lock()
+			tail := strings.Join(r.last, " | ")
+			r.lastMu.Unlock()
+			fails := append([]Failure{{Property: "*", What: fmt.Sprintf("HANG: stream %s made no progress for %v of real time - the implementation is deadlocked or spinning. goroutines: %s", name, stall, dump),
+				Input: fmt.Sprintf("stream=%s seed=%d scale=%d; last trace lines: %s", name, seed, r.Scale, tail)}}, r.Failures...)
+			rep := map[string]any{"stream": name, "seed": seed, "scale": r.Scale, "lines": r.Lines, "cases": r.Cases,
+				"nontrivial": r.Nontriv, "counters": map[string]int{}, "failures": fails, "samples": []string{}, "known": map[string]int{}}
+			if p := os.Getenv("VERIF_REPORT"); p != "" {
+				b, _ := json.MarshalIndent(rep, "", " ")
+				os.WriteFile(p, b, 0o644)
+			}
+			os.Exit(3)
+		}
+	}()
 	func() {
 		defer func() {
 			if p := recover(); p != nil {
